@@ -30,10 +30,10 @@ def condition_on_ob(explicit, R_is_one):
         R = D(1) if R_is_one else sym("R")
         Dd, Db = sym("D"), sym("Db")
         p = build.pdf(I, R, Dd, "p")
-        dim_b = build.indices("dim_b", Db)
+        dim_b = build.indices("dim_b", Db, distinct=True)
         if explicit:
-            Da = sym("Da")
-            dim_a = build.indices("dim_a", Da)
+            Da = Dd - Db                  # contract: the two lists partition the coordinates
+            dim_a = build.indices("dim_a", Da, distinct=True)
             c = I.call_method(p, meth, [dim_b, dim_a])
             a_name = "dim_a"
         else:
